@@ -457,3 +457,48 @@ T('C13', 'twin-mutate-local-comprehension', GEN, '    akeys = set(a.keys())\n   
   '    akeys = set(a.keys())\n    bkeys = set(b.keys())\n    names = [k for k in akeys]\n    names.append("")\n    names.sort()\n\n    di = MappingDiffBuilder()\n\n    # Sorting keys in loops')
 T('C13', 'twin-restore-by-subscript', NBD, "        tmp_data = a.pop('data')\n        a_conj = copy.deepcopy(a)  # Output without data\n        a.data = tmp_data          # Restore output",
   "        tmp_data = a.pop('data')\n        a_conj = copy.deepcopy(a)  # Output without data\n        a['data'] = tmp_data          # Restore output")
+
+# ------------------------------------------------------------------------------------------ C02
+M('C02', 'dict-leaf-loose-compare', GEN, '            if not compare_strict(avalue, bvalue):\n                di.replace(key, bvalue)', '            if avalue != bvalue:\n                di.replace(key, bvalue)', 'R02.1')
+M('C02', 'default-predicate-plain-eq', GEN, '    return defaultdict2(lambda: (compare_strict,), {})', '    return defaultdict2(lambda: (operator.__eq__,), {})', 'R02.1')
+M('C02', 'strict-helper-loses-type-test', GEN, '    return x == y and _json_number_type(x) is _json_number_type(y)', '    return x == y and True', 'R02.1')
+M('C02', 'early-equal-return-in-diff-dicts', GEN, '    akeys = set(a.keys())\n    bkeys = set(b.keys())\n\n    di = MappingDiffBuilder()\n\n    # Sorting keys in loops',
+  '    if a == b:\n        return []\n    akeys = set(a.keys())\n    bkeys = set(b.keys())\n\n    di = MappingDiffBuilder()\n\n    # Sorting keys in loops', 'R02.1')
+M('C02', 'patch-list-loses-removerange', PATCH, '        elif op == DiffOp.REMOVERANGE:\n            # Delete a number of values by skipping\n            skip = e.length', '        elif op == "remove_range":\n            skip = e.length', 'R02.2')
+M('C02', 'count-consumed-loses-patch', DU, '    elif op == DiffOp.PATCH:\n        return (1, 1)', '    elif op == "patched":\n        return (1, 1)', 'R02.2')
+M('C02', 'lcs-hand-built', LCS, '    return di.validated()', '    return [e for e in di._diff]', 'R02.3')
+M('C02', 'addrange-key-from-other-cursor', LCS, '        if j > y:\n            di.addrange(x, B[y:j])', '        if j > y:\n            di.addrange(y, B[y:j])', 'R02.4')
+M('C02', 'removerange-length-off-by-one', LCS, '        if i > x:\n            di.removerange(x, i-x)', '        if i > x:\n            di.removerange(x, i-x+1)', 'R02.4')
+M('C02', 'insert-slice-from-first-sequence', SNK, '            di.addrange(i0, b[j0:j])', '            di.addrange(i0, a[j0:j])', 'R02.4')
+T('C02', 'twin-early-equal-strings', 'nbdime/diffing/sequences.py', "    if a == b:\n        return []\n    lines_a = a.splitlines(True)", "    if len(a) == len(b) and a == b:\n        return []\n    lines_a = a.splitlines(True)")
+T('C02', 'twin-hoist-length', LCS, '        if i > x:\n            di.removerange(x, i-x)', '        if i > x:\n            n = i - x\n            di.removerange(x, n)')
+
+# ------------------------------------------------------------------------------------------ C01
+M('C01', 'mime-differ-loose-compare', NBD, '    elif not compare_strict(avalue, bvalue):\n        diffbuilder.replace(key, bvalue)', '    elif avalue != bvalue:\n        diffbuilder.replace(key, bvalue)', 'R01.3')
+M('C01', 'mime-fastpath-loose', NBD, '    if isinstance(avalue, str) and isinstance(bvalue, str) and avalue == bvalue:\n        return', '    if avalue == bvalue:\n        return', 'R01.3')
+M('C01', 'attachments-emit-sequence-op', NBD, '    for key in sorted(bkeys - akeys):\n        di.add(key, b[key])\n    return di.validated()\n\n\ndef diff_mime_bundle',
+  '    for key in sorted(bkeys - akeys):\n        di.append(op_addrange(0, [b[key]]))\n    return di.validated()\n\n\ndef diff_mime_bundle', 'R01.1',
+  edits=[(NBD, 'from ..diff_format import MappingDiffBuilder, DiffOp', 'from ..diff_format import MappingDiffBuilder, DiffOp, op_addrange')])
+M('C01', 'patch-dict-loses-replace', PATCH, '        elif op == DiffOp.REPLACE:\n            assert key not in deleted_keys', '        elif op == "replaced":\n            assert key not in deleted_keys', 'R01.1')
+M('C01', 'flatten-raises-on-removerange', DU, '            elif op == DiffOp.REMOVERANGE:\n                d = op_removerange(\n                    line_offset, line_to_char[e.key + e.length] - line_offset)',
+  '            elif op == DiffOp.REMOVERANGE:\n                raise NBDiffFormatError("removerange")', 'R01.1')
+M('C01', 'nbpatch-no-revival', 'nbdime/nbpatchapp.py', '    diff = to_diffentry_dicts(diff)\n', '', 'R01.2')
+M('C01', 'revival-not-recursive-for-lists', DU, '    elif isinstance(di, list):\n        return [to_diffentry_dicts(v) for v in di]\n    else:\n        return di\n\ndef as_dict_based_diff',
+  '    elif isinstance(di, list):\n        return list(di)\n    else:\n        return di\n\ndef as_dict_based_diff', 'R01.2')
+M('C01', 'nbdiff-dumps-filtered-diff', 'nbdime/nbdiffapp.py', '            json.dump(d, df, indent=2, separators=(",", ": "))', '            json.dump([e for e in d if e.key != "metadata"], df, indent=2, separators=(",", ": "))', 'R01.2')
+M('C01', 'nbdiff-arguments-swapped', 'nbdime/nbdiffapp.py', '    d = diff_notebooks(a, b)', '    d = diff_notebooks(b, a)', 'R01.2')
+T('C01', 'twin-revive-inline', 'nbdime/nbpatchapp.py', '        diff = json.load(patch_file)\n    diff = to_diffentry_dicts(diff)\n', '        diff = to_diffentry_dicts(json.load(patch_file))\n')
+
+# ------------------------------------------------------------------------------------------ C04
+M('C04', 'merged-id-is-a-dict', STR, '                # recorded here: the merged cell keeps the local one\n                cell[k] = lcell[k]\n', '                cell[k] = {"local_id": lcell[k], "remote_id": rcell[k]}\n', 'R04.1')
+M('C04', 'execution-count-empty-string', STR, "            elif k == 'execution_count':\n                cell[k] = None  # Clear", "            elif k == 'execution_count':\n                cell[k] = \"\"  # Clear", 'R04.1')
+M('C04', 'outputs-cleared-to-none', STR, "            elif k == 'outputs':\n                cell[k] = []", "            elif k == 'outputs':\n                cell[k] = None", 'R04.1')
+M('C04', 'cleared-list-becomes-none', DEC, '        # Clearing e.g. an outputs list means setting it to an empty list\n        return []', '        # Clearing e.g. an outputs list means setting it to an empty list\n        return None', 'R04.1')
+M('C04', 'clear-strategy-on-cell-type', MNB, '            "/cells/*/execution_count": "clear",\n', '            "/cells/*/execution_count": "clear",\n            "/cells/*/outputs/*/output_type": "clear",\n', 'R04.1')
+M('C04', 'marker-output-unknown-field', STR, '    return nbformat.v4.new_output("stream", name="stderr", text=text)', '    return nbformat.v4.new_output("stream", name="stderr", text=text, marker=True)', 'R04.1')
+M('C04', 'marker-cells-always-with-id', STR, '    with_id = any(\'id\' in c for c in list(base_cells) + lcells + rcells)\n', '    with_id = True\n', 'R04.2')
+M('C04', 'marker-id-never-stripped', STR, '    if not with_id:\n        # Cell ids only exist from notebook format 4.5 on\n        cell.pop(\'id\', None)\n', '', 'R04.2')
+M('C04', 'apply-returns-plain-dict', DEC, '    merged = nbformat.from_dict(merged)\n    return merged', '    return merged', 'R04.3')
+T('C04', 'twin-id-from-remote', STR, '                # recorded here: the merged cell keeps the local one\n                cell[k] = lcell[k]\n', '                cell[k] = rcell[k]\n')
+T('C04', 'twin-metadata-dict-call-free', STR, '                cell[k] = {\n                    "local_metadata": lcell[k],\n                    "remote_metadata": rcell[k],\n                }',
+  '                cell[k] = {"local_metadata": lcell[k], "remote_metadata": rcell[k], "note": "conflict"}')
